@@ -15,7 +15,9 @@ pub(super) enum HandshakeState<Auth: Sasl> {
     Tune(ConnectionOptions<Auth>, FieldTable),
     Open(TuneOk, FieldTable),
     ServerClosing(Close),
-    Done(TuneOk, FieldTable),
+    // The Vec holds frames that arrived behind OpenOk in the same read; they belong to the
+    // established connection and are handed to it once the handshake loop has returned.
+    Done(TuneOk, FieldTable, Vec<AMQPFrame>),
 }
 
 impl<Auth: Sasl> HandshakeState<Auth> {
@@ -75,9 +77,18 @@ impl<Auth: Sasl> HandshakeState<Auth> {
                 let open_ok = OpenOk::try_from(0, frame)?;
                 debug!("received handshake {:?}", open_ok);
 
-                *self = HandshakeState::Done(tune_ok.clone(), server_properties.clone());
+                *self = HandshakeState::Done(
+                    tune_ok.clone(),
+                    server_properties.clone(),
+                    Vec::new(),
+                );
             }
-            HandshakeState::ServerClosing(_) | HandshakeState::Done(_, _) => {
+            HandshakeState::Done(_, _, pending) => {
+                // Whether a frame shares a read with OpenOk is an accident of how the byte
+                // stream was segmented; keep it, in order, for the connection proper.
+                pending.push(frame);
+            }
+            HandshakeState::ServerClosing(_) => {
                 return FrameUnexpectedSnafu.fail();
             }
         }
